@@ -3,13 +3,17 @@
 (a) `_set_http_status` on every HTTPStatus member the server package names in its source (AST
     scan of the live package): 500 becomes "200" + X-VGI-RPC-Error, nothing else is a 5xx.
 (b) the three RPC resources' real `on_post` + the real `_HttpRpcApp._resolve_method` +
-    `_check_content_type` + the real `except` ladders of `_run_unary_sync` /
-    `_run_stream_init_sync` (re-globalised: `_read_request` raises a *symbolic* member of
-    {ArrowInvalid, TypeError, StopIteration, RpcError, VersionError, KeyError, ValueError, OSError,
-    RuntimeError} or returns a mismatching method name), on a symbolic content type, method name
-    and route: wrong content type => 415, unknown method => 404, route/method-kind mismatch and
-    request-validation classes => 400, anything else => 500 surfaced as 200 + marker header, never
-    a bare 5xx; every one of these error responses is built by `_set_error_response`.
+    `_check_content_type` + the real `_run_unary_sync` / `_run_stream_init_sync` up to the end of
+    request validation, with EVERY validation step able to refuse: `_read_request`,
+    `_deserialize_params`, `_validate_call_signature`, `_validate_params` are re-globalised stubs of
+    which a *symbolic* one raises a *symbolic* member of {ArrowInvalid, TypeError, StopIteration,
+    RpcError, VersionError, KeyError, ValueError, OSError, RuntimeError} (or the read returns a
+    mismatching method name), and the application protocol-version gate is the REAL
+    `RpcServer._check_protocol_version` on a server that declares a version or not, with the
+    client's version absent / incompatible / malformed / compatible.  Wrong content type => 415,
+    unknown method => 404, route/method-kind mismatch, validation classes and version rejections
+    => 400, anything else => 500 surfaced as 200 + marker header, never a bare 5xx and never an
+    exception escaping the resource; every one of these responses is built by `_set_error_response`.
 (c) `_MaxRequestBytesMiddleware.process_request`: 413 for every non-exempt request that declares or
     delivers more than max_request_bytes, and never for a body within the cap.
 (d) `_set_error_response` (no stubs) yields a decodable Arrow IPC body for every status/exception
@@ -54,14 +58,15 @@ ENCODED = [
 _LM = pick(3, 5)
 BOUNDS = (
     "content type = exact Arrow type | absent | any string len<=%d; method = a unary name | a stream name | any string len<=%d; route in {unary, init, exchange}; "
-    "_read_request outcome in 9 exception classes + name mismatch; max-bytes: path = prefix + '/' + any string len<=%d, unbounded ints" % (_LM, _LM, pick(8, 10))
+    "failing validation step in {read, name, version gate (real), deserialize, signature, params} x 9 exception classes x 5 protocol-version situations; max-bytes: path = prefix + '/' + any string len<=%d, unbounded ints" % (_LM, _LM, pick(8, 10))
 )
 OUTSIDE = (
     "Falcon routing and Falcon's own error responses (405, 404 sink); real malformed IPC bytes through pyarrow; the exchange dispatcher (_run_stream_exchange_sync: tokens, see C12/C13); "
     "content-encoding 415/400 (_CompressionMiddleware, see C17/C19); 401 (C20/C21); everything after request validation (the method call itself); the combined request space"
 )
 ASSUMPTIONS = [
-    "_read_request := raises the chosen exception class or returns ('other', {}) — the request-reading C/pyarrow layer is the environment here; which class it raises for which bytes is not decided",
+    "_read_request / _deserialize_params / _validate_call_signature / _validate_params := one chosen step raises the chosen exception class (or the read returns ('other-name', {})) — "
+    "which class these raise for which bytes/values is not decided here (C05/C06); that whatever they raise is mapped per the table IS; the protocol-version gate is the real one",
     "_set_error_response in (b) := recorder that still calls the real _set_http_status (the real one serialises through pyarrow; it is exercised un-stubbed in (d))",
     "server.methods := linear-scan mapping with dict semantics (a symbolic key in a real dict realises)",
     "falcon Request/Response := attribute bags with the attributes the kernels touch",
